@@ -109,6 +109,21 @@ impl<'t> Macro<'t> {
         args: Vec<R>,
         macros: &HashMap<&'t str, Macro<'t>>,
     ) -> super::Result<'t, MultiOp> {
+        self.process_nested(name, regs, args, macros, 0)
+    }
+
+    fn process_nested(
+        &self,
+        name: &'t str,
+        regs: Vec<N>,
+        args: Vec<R>,
+        macros: &HashMap<&'t str, Macro<'t>>,
+        depth: usize,
+    ) -> super::Result<'t, MultiOp> {
+        // without recursion a chain of nested calls names each macro at most once
+        if depth >= macros.len() {
+            return Err(Error::RecursiveMacro(name).into());
+        }
         if regs.len() != self.regs.len() {
             return Err(super::Error::WrongRegNumber(name, regs.len()));
         }
@@ -140,7 +155,7 @@ impl<'t> Macro<'t> {
                         if &name == name_i {
                             return Err(Error::RecursiveMacro(name_i).into());
                         }
-                        _macro.process(name_i, regs_i, args_i, macros)?
+                        _macro.process_nested(name_i, regs_i, args_i, macros, depth + 1)?
                     }
                     None => gates::process(name_i, regs_i, args_i)?,
                 };
